@@ -50,7 +50,19 @@ fn main() {
             std::process::exit(2);
         }
     };
-    let code = match prop {
+    let code = match std::panic::catch_unwind(|| dispatch(prop, tier)) {
+        Ok(c) => c,
+        Err(_) => {
+            // a panic of the machinery itself is never a verdict
+            println!("verif-machinery: the harness panicked: {}", common::LAST_HARNESS_PANIC.lock().map(|g| g.clone()).unwrap_or_default());
+            2
+        }
+    };
+    std::process::exit(code);
+}
+
+fn dispatch(prop: &str, tier: Tier) -> i32 {
+    match prop {
         "C01" | "C13" | "C04" | "C05" | "C10" | "C12" | "C16" => e1::run(prop, tier),
         "C02" => lanes::c02::run(tier),
         "C03" => lanes::c03::run(tier),
@@ -69,6 +81,5 @@ fn main() {
             eprintln!("unknown property {}", prop);
             2
         }
-    };
-    std::process::exit(code);
+    }
 }
